@@ -251,7 +251,7 @@ NATIVE_TWINS = {
     'C18': ('c18_score_model', None,
             'every (piece, colour) alone on every square, 3000 pseudo-random placements of up to 14 men, nine queens: score == -score(colour-swapped rotated position), |score| below every mate score; stalemate 0 and strictly better quicker mates at remaining depths 0..255'),
     'C14': ('c14_c15_game_model', ['coordinate_pairs_accepted_iff_legal_played_exactly_rejected_without_effect', 'typed_labels_accepted_iff_legal_played_exactly_rejected_without_effect'],
-            '5 positions x all 4096 coordinate pairs (accepted iff legal, successor board and history on acceptance, nothing changed on rejection); notation strings, bounded only: 6 games x 12 plies typed as labels (2 crafted lines with tempo loss), near-miss labels of the other side / previous position rejected without effect'),
+            '5 positions x all 4096 coordinate pairs (accepted iff legal, successor board and history on acceptance, nothing changed on rejection); notation strings, bounded only: 7 games x 12 plies typed as labels (3 crafted lines: tempo loss twice, two knights on b1/e4 reaching d2; labels of a position pairwise distinct), near-miss labels of the other side / previous position rejected without effect'),
     # not a bounded twin but an EXHAUSTIVE evaluation of this build's book data (C15, second sentence); run in both tiers
     'C15:book': ('c15_book_lines', None,
                  'EXHAUSTIVE for the data of this build: every path of the compiled opening book and every line of opening_lines.txt'),
